@@ -10,6 +10,7 @@ import (
 	"go/constant"
 	"go/token"
 	"go/types"
+	"sort"
 	"strings"
 
 	"golang.org/x/tools/go/ssa"
@@ -570,20 +571,147 @@ func ruleRoutingPairs(r *Run) {
 	mg := r.Anchor(rule, "merger.(ExtendMergerFunc).Merge")
 	n := 0
 	if mg != nil {
-		for _, ins := range allInstrs(mg) {
-			c, ok := ins.(*ssa.Call)
-			if !ok || !strings.HasSuffix(calleeName(&c.Call), "merger.TypeURLMap).SetFromSchema") || len(c.Call.Args) != 3 {
-				continue
-			}
-			n++
+		// a recording site: SetFromSchema(x.Schema.Types, x.URL), or a helper that is handed the
+		// input x and does that with its parameter
+		type recSite struct {
+			call  *ssa.Call
+			input ssa.Value
+		}
+		var sites []recSite
+		checkPair := func(in *ssa.Function, c *ssa.Call) ssa.Value {
 			s := mergeInputOf(c.Call.Args[1], false, 0)
 			u := mergeInputOf(c.Call.Args[2], true, 0)
-			r.Check(s != nil && u != nil && sameInput(s, u), rule, fnName(mg), "SetFromSchema(schema, url) of one input", r.P.pos(c.Pos()),
+			good := s != nil && u != nil && sameInput(s, u)
+			r.Check(good, rule, fnName(in), "SetFromSchema(schema, url) of one input", r.P.pos(c.Pos()),
 				"the type map and the URL passed to SetFromSchema are fields of the same MergeInput",
 				"a schema's fields are recorded in the routing table under the URL of a different input: every field of that service is routed to the wrong service")
+			if !good {
+				return nil
+			}
+			return s
 		}
+		isSFS := func(c *ssa.Call) bool {
+			return strings.HasSuffix(calleeName(&c.Call), "merger.TypeURLMap).SetFromSchema") && len(c.Call.Args) == 3
+		}
+		for _, ins := range allInstrs(mg) {
+			c, ok := ins.(*ssa.Call)
+			if !ok {
+				continue
+			}
+			if isSFS(c) {
+				n++
+				if in := checkPair(mg, c); in != nil {
+					sites = append(sites, recSite{c, in})
+				}
+				continue
+			}
+			sc := c.Call.StaticCallee()
+			if sc == nil || !inModule(sc) || sc.Blocks == nil || topFn(sc).Pkg != topFn(mg).Pkg {
+				continue
+			}
+			for _, i2 := range allInstrs(sc) {
+				c2, ok := i2.(*ssa.Call)
+				if !ok || !isSFS(c2) {
+					continue
+				}
+				n++
+				in := checkPair(sc, c2)
+				if in == nil {
+					continue
+				}
+				for k, p := range sc.Params {
+					if ssa.Value(p) == in && k < len(c.Call.Args) {
+						sites = append(sites, recSite{c, c.Call.Args[k]})
+					}
+				}
+			}
+		}
+		// which inputs are recorded: inputs[c] for a constant c, or every element from c on when
+		// the site sits in a range over inputs[c:]
+		var inputsParam ssa.Value
+		for _, p := range mg.Params {
+			if sl, ok := p.Type().Underlying().(*types.Slice); ok && strings.HasSuffix(namedOf(sl.Elem()), "merger.MergeInput") {
+				inputsParam = p
+			}
+		}
+		consts := map[int64]bool{}
+		from := int64(-1)
+		for _, st := range sites {
+			ld, ok := unwrap(st.input).(*ssa.UnOp)
+			if !ok || ld.Op != token.MUL {
+				continue
+			}
+			ia, ok := ld.X.(*ssa.IndexAddr)
+			if !ok {
+				continue
+			}
+			base, low := ia.X, int64(0)
+			if sl, ok := base.(*ssa.Slice); ok && sl.High == nil && sl.Max == nil {
+				base = sl.X
+				if sl.Low != nil {
+					k, ok := sl.Low.(*ssa.Const)
+					if !ok || k.Value == nil {
+						continue
+					}
+					low, _ = constant.Int64Val(k.Value)
+				}
+			}
+			if inputsParam == nil || base != inputsParam {
+				continue
+			}
+			if k, ok := ia.Index.(*ssa.Const); ok && k.Value != nil {
+				c, _ := constant.Int64Val(k.Value)
+				// on every successful path
+				dom := true
+				for _, ret := range returnsOf(mg) {
+					if isNilErrReturn(ret) && !instrDominates(st.call, ret) {
+						dom = false
+					}
+				}
+				if dom {
+					consts[low+c] = true
+				}
+				continue
+			}
+			if !isRangeIndex(ia.Index) {
+				continue
+			}
+			loop := innermostLoop(st.call.Block())
+			var header *ssa.BasicBlock
+			for b := range loop {
+				for _, p := range b.Preds {
+					if !loop[p] {
+						header = b
+					}
+				}
+			}
+			if header == nil {
+				continue
+			}
+			call := st.call
+			q := &pathQuery{
+				settleIns: func(i ssa.Instruction) bool { return i == ssa.Instruction(call) },
+				settleAt:  func(b *ssa.BasicBlock) bool { return !loop[b] },
+				badBlock:  func(b *ssa.BasicBlock) bool { return b == header },
+			}
+			if q.run(header, nil) != nil {
+				continue
+			}
+			if from < 0 || low < from {
+				from = low
+			}
+		}
+		covered := from >= 0
+		for c := int64(0); covered && c < from; c++ {
+			if !consts[c] {
+				covered = false
+			}
+		}
+		r.Check(covered, rule, fnName(mg), "every input is recorded", r.P.pos(mg.Pos()),
+			"the recording sites cover inputs[0], inputs[1], … (constant indices plus a range over the rest), each on every path that goes on",
+			"not every input of Merge has its schema recorded in the routing table under its URL (an input is left out, or recorded only under a condition): the fields of that service have no route")
 	}
-	r.AtLeast(rule, "SetFromSchema calls in Merge", n, 2)
+	r.AtLeast(rule, "SetFromSchema calls in Merge", n, 1)
 	// NewGateway pairs schemas[i] with urls[i]: the introspector must hand back one schema per
 	// URL it was given, i.e. fan out over lo.Range(len(urls)) of the untouched parameter
 	if irs := r.Anchor(rule, "introspection.(*ParallelRemoteSchemaIntrospector).IntrospectRemoteSchemas"); irs != nil {
@@ -697,39 +825,104 @@ func ruleNodeFlag(r *Run) {
 		k, ok := c.Call.Args[1].(*ssa.Const)
 		return ok && k.Value != nil && k.Value.ExactString() == `"Node"` && dependsOnField(c.Call.Args[0], "Interfaces")
 	}
-	n := 0
-	for _, ins := range allInstrs(fn) {
-		iff, ok := ins.(*ssa.If)
-		if !ok || !isContainsNode(iff.Cond) {
-			continue
+	// the test may sit in SetFromSchema or in a helper it hands each definition to
+	region := r.P.CG.Reachable([]*ssa.Function{fn}, nil)
+	var holders []*ssa.Function
+	for g := range region {
+		if topFn(g).Pkg == topFn(fn).Pkg && g.Blocks != nil {
+			holders = append(holders, g)
 		}
-		n++
-		loop := innermostLoop(iff.Block())
-		var header *ssa.BasicBlock
-		for b := range loop {
-			for _, p := range b.Preds {
-				if !loop[p] {
-					header = b
+	}
+	sort.Slice(holders, func(i, j int) bool { return fnName(holders[i]) < fnName(holders[j]) })
+	isSet := func(i ssa.Instruction) bool {
+		ci, ok := i.(ssa.CallInstruction)
+		return ok && strings.HasSuffix(calleeName(ci.Common()), "merger.TypeURLMap).SetTypeIsImplementsNode")
+	}
+	// the filters under which a definition is not recorded at all (R13d.exempt classifies them)
+	notRecorded := func(atom ssa.Value, truth bool) bool {
+		switch c := atom.(type) {
+		case *ssa.BinOp:
+			if c.Op != token.EQL && c.Op != token.NEQ {
+				return false
+			}
+			for _, p := range [][2]ssa.Value{{c.X, c.Y}, {c.Y, c.X}} {
+				if k, ok := p[1].(*ssa.Const); ok && isKindLoad(p[0]) && k.Value != nil && k.Value.Kind() == constant.String && constant.StringVal(k.Value) == "OBJECT" {
+					return (c.Op == token.NEQ) == truth
 				}
 			}
+		case *ssa.Call:
+			return truth && strings.HasSuffix(calleeName(&c.Call), "common.IsBuiltinName")
 		}
-		isSet := func(i ssa.Instruction) bool {
-			ci, ok := i.(ssa.CallInstruction)
-			return ok && strings.HasSuffix(calleeName(ci.Common()), "merger.TypeURLMap).SetTypeIsImplementsNode")
+		return false
+	}
+	// covers: within one round of the loop around `at` (or one call of g, and then one round at
+	// each of its callers), every path on which the definition is recorded and implements Node
+	// executes an instruction accepted by settle
+	var covers func(g *ssa.Function, at *ssa.BasicBlock, settle func(ssa.Instruction) bool, depth int) bool
+	covers = func(g *ssa.Function, at *ssa.BasicBlock, settle func(ssa.Instruction) bool, depth int) bool {
+		q := &pathQuery{
+			settleIns: settle,
+			settleEdge: func(atom ssa.Value, truth bool) bool {
+				return (isContainsNode(atom) && !truth) || notRecorded(atom, truth)
+			},
 		}
-		okAll := true
-		if header != nil {
-			okAll, _ = mustPassUntil(iff.Block().Succs[0], header, isSet)
+		if loop := innermostLoop(at); loop != nil {
+			var header *ssa.BasicBlock
+			for b := range loop {
+				for _, p := range b.Preds {
+					if !loop[p] {
+						header = b
+					}
+				}
+			}
+			if header == nil {
+				return false
+			}
+			q.settleAt = func(b *ssa.BasicBlock) bool { return !loop[b] }
+			q.badBlock = func(b *ssa.BasicBlock) bool { return b == header }
+			return q.run(header, nil) == nil
 		}
-		r.Check(okAll, rule, fnName(fn), "Node flag set whenever the type implements Node", r.P.pos(iff.Cond.Pos()),
-			"every path from `implements Node` to the next type calls SetTypeIsImplementsNode",
-			"a type that implements Node can pass through SetFromSchema without being marked stitchable (the call is skipped under an extra condition): id-only Node types lose their flag and the planner reports `could not find location type`")
-		// and not set otherwise
-		for _, i2 := range allInstrs(fn) {
-			if isSet(i2) {
-				side := iff.Block().Succs[0]
-				r.Check(len(side.Preds) == 1 && (side == i2.Block() || side.Dominates(i2.Block())), rule, fnName(fn), "Node flag only for Node types", r.P.pos(i2.Pos()),
-					"SetTypeIsImplementsNode is reached only where lo.Contains(Interfaces, \"Node\") holds", "the Node flag can be set for a type that does not implement Node")
+		q.badRet = func(*ssa.Return) bool { return true }
+		if q.run(g.Blocks[0], nil) != nil {
+			return false
+		}
+		if g == fn {
+			return true
+		}
+		if depth >= 3 {
+			return false
+		}
+		callers := 0
+		for _, e := range r.P.CG.In[g] {
+			if e.Kind != "static" || !region[e.Caller] && e.Caller != fn {
+				continue
+			}
+			callers++
+			site := e.Site
+			if !covers(e.Caller, site.Block(), func(i ssa.Instruction) bool { return i == ssa.Instruction(site) }, depth+1) {
+				return false
+			}
+		}
+		return callers > 0
+	}
+	n := 0
+	for _, g := range holders {
+		for _, ins := range allInstrs(g) {
+			iff, ok := ins.(*ssa.If)
+			if !ok || !isContainsNode(iff.Cond) {
+				continue
+			}
+			n++
+			r.Check(covers(g, iff.Block(), isSet, 0), rule, fnName(g), "Node flag set whenever the type implements Node", r.P.pos(iff.Cond.Pos()),
+				"every path on which a recorded definition implements Node calls SetTypeIsImplementsNode before the next definition (conjuncts before or after the test, helpers and moved statements included)",
+				"a type that implements Node can pass through SetFromSchema without being marked stitchable (the call is skipped under an extra condition): id-only Node types lose their flag and the planner reports `could not find location type`")
+			// and not set otherwise
+			for _, i2 := range allInstrs(g) {
+				if isSet(i2) {
+					side := iff.Block().Succs[0]
+					r.Check(len(side.Preds) == 1 && (side == i2.Block() || side.Dominates(i2.Block())), rule, fnName(g), "Node flag only for Node types", r.P.pos(i2.Pos()),
+						"SetTypeIsImplementsNode is reached only where lo.Contains(Interfaces, \"Node\") holds", "the Node flag can be set for a type that does not implement Node")
+				}
 			}
 		}
 	}
